@@ -49,6 +49,9 @@ pub struct SurfaceCfg {
     pub blank_cdata: bool,
     /// allow processing instructions (comments are governed by `comments`)
     pub pis: bool,
+    /// allow long content (text, CDATA, attribute values, comments of up to ~1.5 KB with multi-byte
+    /// characters at arbitrary byte offsets)
+    pub long_content: bool,
 }
 
 impl SurfaceCfg {
@@ -68,6 +71,7 @@ impl SurfaceCfg {
             allow_cr: true,
             blank_cdata: true,
             pis: true,
+            long_content: true,
         }
     }
     pub fn plain() -> Self {
@@ -86,6 +90,7 @@ impl SurfaceCfg {
             allow_cr: false,
             blank_cdata: true,
             pis: true,
+            long_content: false,
         }
     }
 }
@@ -165,6 +170,26 @@ impl<'t, 'c> Ser<'t, 'c> {
         self.out.extend_from_slice(s.as_bytes());
     }
 
+    /// long run of characters: `pad` ASCII characters, then a short unit repeated, so that multi-byte
+    /// characters fall on every byte offset (64, 128, 256, 1024 ... boundaries included)
+    fn long_run(&mut self) -> String {
+        const UNITS: &[&str] = &["x", "ab", "é", "€", "名", "xy z", "0123456789", "ñ-", "𝄞"];
+        let pad = self.t.choose(4);
+        let unit = *self.t.pick(UNITS);
+        let reps = 1 + self.t.choose(200);
+        let mut s = String::with_capacity(pad + unit.len() * reps);
+        for _ in 0..pad {
+            s.push('p');
+        }
+        for _ in 0..reps {
+            s.push_str(unit);
+            if s.len() > 1500 {
+                break;
+            }
+        }
+        s
+    }
+
     fn misc(&mut self) {
         // comments / PIs (never character data)
         if !self.cfg.comments {
@@ -175,6 +200,11 @@ impl<'t, 'c> Ser<'t, 'c> {
             if self.t.chance(90) && self.cfg.pis {
                 let p = *self.t.pick(PIS);
                 self.push(p);
+            } else if self.cfg.long_content && self.t.chance(20) {
+                let body = self.long_run().replace("--", "- -");
+                self.push("<!-- ");
+                self.push(&body);
+                self.push(" -->");
             } else {
                 let c = *self.t.pick(COMMENTS);
                 self.push(c);
@@ -190,6 +220,10 @@ impl<'t, 'c> Ser<'t, 'c> {
     }
 
     fn attr_value(&mut self) -> (String, String) {
+        if self.cfg.long_content && self.t.chance(14) {
+            let v = self.long_run();
+            return (v.clone(), v);
+        }
         let mut opts: Vec<&[(&str, &str)]> = vec![ATTR_VALUES];
         if self.cfg.rich_values {
             opts.push(ATTR_VALUES_RICH);
@@ -205,6 +239,20 @@ impl<'t, 'c> Ser<'t, 'c> {
     fn chars(&mut self, blank: bool, v: &mut VNode, neighbours_chunk: bool) {
         let blank = if self.cfg.free_blankness { self.t.chance(100) } else { blank };
         let as_cdata = self.cfg.cdata && self.t.chance(70) && (!blank || self.cfg.blank_cdata);
+        if self.cfg.long_content && self.t.chance(26) {
+            // long content, as text or as CDATA
+            let v_long = if blank { " ".repeat(1 + self.t.choose(200)) } else { self.long_run() };
+            if as_cdata {
+                self.n_cdata += 1;
+                self.push("<![CDATA[");
+                self.push(&v_long);
+                self.push("]]>");
+            } else {
+                self.push(&v_long);
+            }
+            v.chunks.push(Chunk { cdata: as_cdata, value: v_long });
+            return;
+        }
         if as_cdata {
             self.n_cdata += 1;
             let content: &str = if blank {
